@@ -272,6 +272,11 @@ def configs(tier):
         for a, b in ([('A', 'D')] if tier == 'quick' else [('A', 'D'), ('D', 'A')]):
             for buf in (False, True):
                 add(3, grid, chain4, a, b, buf, 3)
+    # ---- five layouts in a chain: four steps end to end (an even number of steps above two; without a spare buffer the result
+    #      has to be brought into the destination by the final copy)
+    chain5 = dict(chain4, E=[1, 2, 0])
+    for a, b, buf in ([('A', 'E', False)] if tier == 'quick' else [('A', 'E', False), ('E', 'A', False), ('A', 'E', True), ('E', 'A', True)]):
+        add(3, (2, 2), chain5, a, b, buf, 3)
     return out
 
 
